@@ -79,6 +79,7 @@ type PeerOpts struct {
 	WillMsg        []byte
 	NoWillReply    bool
 	AckDelay       time.Duration // REGACK / PUBACK / PUBREC / PUBCOMP are sent this much later (virtual time)
+	DupRegack      time.Duration // > 0: every REGACK is sent a second time this much after the first copy
 }
 
 // peerHandler returns the automatic responder of the scripted client: it
@@ -115,6 +116,10 @@ func peerHandler(o PeerOpts) func(s *world.Session, p *snref.Pkt, raw []byte) {
 				rc = 2
 			}
 			reply(snref.Regack(p.TopicID, p.MsgID, rc))
+			if o.DupRegack > 0 {
+				q := snref.Regack(p.TopicID, p.MsgID, rc)
+				time.AfterFunc(o.AckDelay+o.DupRegack, func() { s.SNSendP(q) })
+			}
 		case snref.PUBLISH:
 			switch p.QoS {
 			case 1:
